@@ -293,6 +293,84 @@ def make_harness(shapes: list[Any], shared: bool = False, prepare=None, pred_obj
     return harness
 
 
+def deep_harness(e):
+    """Trees deeper than the interpreter's recursion limit (a long chain of binary operators, deeply
+    nested blocks): construction never recurses, and the traversals must not either.  The expected
+    streams are written down directly from the way the chain was built."""
+    import sys
+
+    reset_all()
+    depth = e.pick([sys.getrecursionlimit() + 200, 2 * sys.getrecursionlimit() + 17], "depth")
+    kind = e.pick(["single-child-chain", "tuple-chain-with-siblings"], "kind")
+    leaf = CLASSES["VLeaf"](v=0)
+    cur = leaf
+    chain = [leaf]  # bottom-up
+    sibs = []
+    for k in range(1, depth + 1):
+        if kind == "single-child-chain":
+            cur = CLASSES["VReq"](child=cur)
+        else:
+            s = CLASSES["VLeaf"](v=k)
+            sibs.append(s)
+            cur = CLASSES["VMany"](items=(cur, s))
+        chain.append(cur)
+    root = cur
+    top_down = list(reversed(chain))[1:]  # proper descendants on the spine, top to bottom
+    sibs_top_down = list(reversed(sibs))  # sibling of the k-th spine node from the top
+    mode = e.pick(["dfs", "dfs-bottom-up", "bfs", "gather-leaves", "dfs-pruned-half-way"], "mode")
+    scenario = {"kind": kind, "depth": depth, "mode": mode}
+    half = depth // 2
+    try:
+        if mode == "dfs":
+            got = [id(i.node) for i in root.dfs()]
+            want = [id(n) for n in top_down] if kind == "single-child-chain" else None
+            if want is None:
+                # pre-order: spine node, (its subtree), then its sibling -> spine top-down, then siblings bottom-up
+                want = [id(n) for n in top_down] + [id(s) for s in reversed(sibs_top_down)]
+        elif mode == "dfs-bottom-up":
+            got = [id(i.node) for i in root.dfs(bottom_up=True)]
+            if kind == "single-child-chain":
+                want = [id(n) for n in reversed(top_down)]
+            else:
+                # post-order: leaf, then going up: sibling of the level, then the parent spine node
+                want = []
+                up = list(reversed(top_down))  # leaf first
+                sib_up = list(reversed(sibs_top_down))  # sibling of the lowest level first
+                want.append(id(up[0]))
+                for k in range(len(sib_up)):
+                    want.append(id(sib_up[k]))
+                    if k + 1 < len(up):
+                        want.append(id(up[k + 1]))
+        elif mode == "bfs":
+            got = [id(i.node) for i in root.bfs()]
+            if kind == "single-child-chain":
+                want = [id(n) for n in top_down]
+            else:
+                want = []
+                for k, n in enumerate(top_down):
+                    want.append(id(n))
+                    want.append(id(sibs_top_down[k]))
+        elif mode == "gather-leaves":
+            got = [id(n) for n in root.gather(CLASSES["VLeaf"])]
+            want = [id(leaf)] if kind == "single-child-chain" else [id(leaf)] + [id(s) for s in reversed(sibs_top_down)]
+        else:
+            stop = top_down[half]
+            got = [id(i.node) for i in root.dfs(prune=lambda i: i.node is stop)]
+            if kind == "single-child-chain":
+                want = [id(n) for n in top_down[: half + 1]]
+            else:
+                want = [id(n) for n in top_down[: half + 1]] + [id(s) for s in reversed(sibs_top_down[: half + 1])]
+    except RecursionError as ex:
+        scenario.update(raised=f"RecursionError: {ex}"[:120])
+        e.fail("deep-tree:traversal-raises-RecursionError", scenario=scenario)
+    if got != want:
+        scenario.update(got_len=len(got), expected_len=len(want), first_difference=next((k for k, (a, b) in enumerate(zip(got, want)) if a != b), min(len(got), len(want))))
+        e.fail("deep-tree:stream-mismatch", scenario=scenario)
+    _check_positions(e, root.dfs(), scenario)
+    e.distinct((kind, depth, mode))
+    return scenario
+
+
 def _val(e, b) -> bool:
     # value of an already-decided lazy bit on this path (never forks: only called on consulted bits)
     return True if b else False
@@ -324,6 +402,7 @@ def spec(tier: str, seed: int) -> Spec:
     pre_shapes = [x for x in shapes if recipe_size(x) >= 2][::5]
     for k in range(0, len(pre_shapes), 12):
         fams.append(Family(f"predecessor-walked[{k}:{k + 12}]", make_harness(pre_shapes[k : k + 12], predecessor=True), variables="as above; selector: how an equal tree with the same ids was walked and left the registry before"))
+    fams.append(Family("deep-trees", deep_harness, variables="selectors: chain kind, depth (beyond the interpreter's recursion limit), traversal"))
     fams.append(Family("falsy-single", make_harness(_falsy_shapes()), variables="as above; trees containing a falsy node class"))
     fams.append(Family("shared-object", make_harness(_shared_shapes(), shared=True), variables="as above; one node object stored at two positions"))
     for first in ("MNamed", "MBodied", "MFunc", "MEmpty"):
